@@ -260,41 +260,41 @@ macro_rules! msg_default {
 }
 
 // GENERATED BY gen.py — BEGIN
-//@ props=C01,C05,C08,C14,C15,C20,C04 tier=quick unwind=4 stubs=greedy0 witness=rejected
+//@ props=C01,C05,C08,C14,C15,C20,C04 tier=quick unwind=10 stubs=greedy0 witness=rejected
 msg_dec!(msg_dec_0, 0);
-//@ props=C02 tier=quick unwind=4 stubs=greedy0 witness=rejected
+//@ props=C02 tier=quick unwind=10 stubs=greedy0 witness=rejected
 msg_dec_mon!(msg_dec_mon_0, 0);
-//@ props=C14 tier=quick unwind=4 stubs=greedy0 witness=rejected
+//@ props=C14 tier=quick unwind=10 stubs=greedy0 witness=rejected
 msg_default!(msg_default_0, 0);
-//@ props=C01,C05,C08,C14,C15,C20,C04 tier=quick unwind=5 stubs=greedy0 witness=rejected
+//@ props=C01,C05,C08,C14,C15,C20,C04 tier=quick unwind=10 stubs=greedy0 witness=rejected
 msg_dec!(msg_dec_1, 1);
-//@ props=C02 tier=quick unwind=5 stubs=greedy0 witness=rejected
+//@ props=C02 tier=quick unwind=10 stubs=greedy0 witness=rejected
 msg_dec_mon!(msg_dec_mon_1, 1);
-//@ props=C14 tier=quick unwind=5 stubs=greedy0 witness=rejected
+//@ props=C14 tier=quick unwind=10 stubs=greedy0 witness=rejected
 msg_default!(msg_default_1, 1);
-//@ props=C01,C05,C08,C14,C15,C20,C04 tier=quick unwind=6 stubs=greedy0 witness=rejected
+//@ props=C01,C05,C08,C14,C15,C20,C04 tier=quick unwind=10 stubs=greedy0 witness=rejected
 msg_dec!(msg_dec_2, 2);
-//@ props=C02 tier=quick unwind=6 stubs=greedy0 witness=rejected
+//@ props=C02 tier=quick unwind=10 stubs=greedy0 witness=rejected
 msg_dec_mon!(msg_dec_mon_2, 2);
-//@ props=C14 tier=quick unwind=6 stubs=greedy0 witness=rejected
+//@ props=C14 tier=quick unwind=10 stubs=greedy0 witness=rejected
 msg_default!(msg_default_2, 2);
-//@ props=C01,C05,C08,C14,C15,C20,C04 tier=thorough unwind=7 stubs=greedy0 witness=rejected
+//@ props=C01,C05,C08,C14,C15,C20,C04 tier=thorough unwind=10 stubs=greedy0 witness=rejected
 msg_dec!(msg_dec_3, 3);
-//@ props=C02 tier=thorough unwind=7 stubs=greedy0 witness=rejected
+//@ props=C02 tier=thorough unwind=10 stubs=greedy0 witness=rejected
 msg_dec_mon!(msg_dec_mon_3, 3);
-//@ props=C14 tier=thorough unwind=7 stubs=greedy0 witness=rejected
+//@ props=C14 tier=thorough unwind=10 stubs=greedy0 witness=rejected
 msg_default!(msg_default_3, 3);
-//@ props=C01,C05,C08,C14,C15,C20,C04 tier=thorough unwind=8 stubs=greedy0 witness=rejected
+//@ props=C01,C05,C08,C14,C15,C20,C04 tier=thorough unwind=10 stubs=greedy0 witness=rejected
 msg_dec!(msg_dec_4, 4);
-//@ props=C02 tier=thorough unwind=8 stubs=greedy0 witness=rejected
+//@ props=C02 tier=thorough unwind=10 stubs=greedy0 witness=rejected
 msg_dec_mon!(msg_dec_mon_4, 4);
-//@ props=C14 tier=thorough unwind=8 stubs=greedy0 witness=rejected
+//@ props=C14 tier=thorough unwind=10 stubs=greedy0 witness=rejected
 msg_default!(msg_default_4, 4);
-//@ props=C01,C05,C08,C14,C15,C20,C04 tier=thorough unwind=9 stubs=greedy0 witness=rejected
+//@ props=C01,C05,C08,C14,C15,C20,C04 tier=thorough unwind=10 stubs=greedy0 witness=rejected
 msg_dec!(msg_dec_5, 5);
-//@ props=C02 tier=thorough unwind=9 stubs=greedy0 witness=rejected
+//@ props=C02 tier=thorough unwind=10 stubs=greedy0 witness=rejected
 msg_dec_mon!(msg_dec_mon_5, 5);
-//@ props=C14 tier=thorough unwind=9 stubs=greedy0 witness=rejected
+//@ props=C14 tier=thorough unwind=10 stubs=greedy0 witness=rejected
 msg_default!(msg_default_5, 5);
 //@ props=C01,C05,C08,C14,C15,C20,C04 tier=quick unwind=10 stubs=greedy0 witness=rejected
 msg_dec!(msg_dec_6, 6);
